@@ -691,7 +691,7 @@ func (x *vf19Run) accepted(e *vf19Ev, path string, wasPending bool) {
 			// equation is the clause consensus does not guarantee (F9, reported by the network part)
 			x.o.Stat("accepted.fast-path.consensus-evidence-with-other-time")
 		} else {
-			x.o.Viol("accepted-evidence-with-wrong-time", fmt.Sprintf("%s %s accepted evidence #%d (%s) whose time %d is not the time of block %d (%d, known=%v); ops: %s", x.desc, path, e.id, e.desc, e.ev.Timestamp.Unix(), e.ev.Height(), bt, okT, x.tail()))
+			x.o.Viol("accepted-evidence-with-wrong-time", fmt.Sprintf("%s %s accepted evidence #%d (%s) whose time %d ns is not the time of block %d (%d s, known=%v); ops: %s", x.desc, path, e.id, e.desc, e.ev.Timestamp.UnixNano(), e.ev.Height(), bt, okT, x.tail()))
 		}
 	}
 	if vf19Expired(x.c, e.ev.Height(), e.ev.Timestamp.Unix()) {
